@@ -82,7 +82,8 @@ C09b(e) == e.k = "end" =>
                  LET o == e.objs[i] IN
                  o.det = IF (o.destroyed \/ o.handed) /\ ~o.orphan THEN 1 ELSE 0
 \* an object whose recycling step failed, timed out or was abandoned is gone for good
-C04b(e) == e.k = "end" => \A i \in 1..Len(e.objs) : e.objs[i].rejected => (e.objs[i].destroyed /\ ~e.objs[i].idle /\ ~e.objs[i].out)
+C04b(e) == e.k = "end" => \A i \in 1..Len(e.objs) : e.objs[i].rejected =>
+              (e.objs[i].destroyed /\ ~e.objs[i].idle /\ ~e.objs[i].out /\ (~e.objs[i].orphan => e.objs[i].det = 1))
 
 C11a(e) == (e.quiescent /\ e.nosusp /\ e.stknown /\ ~e.poolgone) =>
               /\ e.st_max = e.max /\ e.st_size = e.idle + e.out
